@@ -377,6 +377,9 @@ func (tr *Addition) Add(write func(w *Writer) error) error {
 	if wr.minUpdateIndex < tr.nextUpdateIndex {
 		return ErrLockFailure
 	}
+	if wr.maxUpdateIndex < wr.minUpdateIndex {
+		return fmt.Errorf("reftable: table limits [%d, %d] are inverted", wr.minUpdateIndex, wr.maxUpdateIndex)
+	}
 
 	if err := tr.checkAddition(tab.Name()); err != nil {
 		return err
